@@ -18,4 +18,7 @@ def run(prop, tier):
         if prop == "C07":
             return simple.check_c07(tier)
         return simple.check_text(prop, tier)
+    if prop in ("C15", "C16", "C20"):
+        from . import simple
+        return {"C15": simple.check_c15, "C16": simple.check_c16, "C20": simple.check_c20}[prop](tier)
     raise C.ToolError("no check registered for %s" % prop)
